@@ -104,11 +104,24 @@ Theorem no_dotdot_tail_is_plain : forall s, no_dotdot_tail s = true -> plain s =
 Proof. exact no_dotdot_tail_plain. Qed.
 Print Assumptions no_dotdot_tail_is_plain.
 
-(* idempotence on the proved class (the class is closed under normalisation) *)
-Corollary zix_normal_idempotent_partial : forall s, c_string s -> no_dotdot_tail s = true ->
+(* idempotence on the proved class: plain is closed under normalisation (plain_closed), so the
+   model returns its own result unchanged.  The second bound is on the length of the result (the
+   allocation of the second call); |std_normal s| <= |s| is not proved, hence the hypothesis. *)
+Theorem plain_closed : forall s, plain s = true -> plain (std_normal s) = true.
+Proof. exact std_normal_plain. Qed.
+Print Assumptions plain_closed.
+
+Corollary zix_normal_idempotent_partial : forall s, c_string s -> zlen s + 2 < 2 ^ 64 ->
+  zlen (std_normal s) + 2 < 2 ^ 64 -> plain s = true ->
+  zix_normal (zix_normal s) = zix_normal s.
+Proof. exact zix_normal_idem_plain. Qed.
+Print Assumptions zix_normal_idempotent_partial.
+
+(* on the sub-class without any field ending in ".." no length bound is needed *)
+Corollary zix_normal_idempotent_no_dotdot : forall s, c_string s -> no_dotdot_tail s = true ->
   zix_normal (zix_normal s) = zix_normal s.
 Proof. exact zix_normal_idem_on_class. Qed.
-Print Assumptions zix_normal_idempotent_partial.
+Print Assumptions zix_normal_idempotent_no_dotdot.
 
 (* FULL idempotence statements, REFUTED outside the proved class (inside the finding classes):
      forall s, zix_normal (zix_normal s) = zix_normal s                 -- "//./" -> "/./" -> "/"
